@@ -68,11 +68,49 @@ def _span(a, b):
     return None
 
 
+TERM_LEN = {}   # term -> length (int or canonical term), registered by a view that has established it (register_filled, constructor facts)
+
+
+def register_filled(effects):
+    """lengths of vectors that are filled by exactly one unconditional push per iteration of exactly one loop with a known domain
+    0..N and touched by nothing else: such a vector has N elements (a `map(..).collect()` gets its length from its source in known_len)"""
+    from . import terms as _T
+    by = {}
+    for e in effects:
+        if e.args and e.raw.get("name") in _T.MUTATORS and (e.path or "").startswith(("alloc::vec", "<alloc::vec")):
+            by.setdefault(P.norm(e.args[0]), []).append(e)
+    changed = True
+    rounds = 0
+    while changed and rounds < 4:
+        changed = False
+        rounds += 1
+        for v, es in by.items():
+            if v in TERM_LEN or len(es) != 1 or es[0].raw.get("name") != "push":
+                continue
+            e = es[0]
+            lps = circ.loops_of(e)
+            if len(lps) != 1 or circ.uncond_problems(e):
+                continue
+            dm = Desc(lps[0]).domain()
+            if dm is None or dm[0] != 0 or (isinstance(dm[1], tuple) and dm[1] and dm[1][0] in ("minlen", "len")):
+                continue
+            TERM_LEN[v] = dm[1]
+            changed = True
+
+
 def known_len(x):
     """length fixed by construction, or None"""
     x = P.norm(x)
     if not isinstance(x, tuple) or not x:
         return None
+    if x in TERM_LEN:
+        return TERM_LEN[x]
+    if x[0] == "map" and len(x) >= 3:
+        # a collected map has as many elements as its source streams
+        d = Desc(x[1])
+        dm = d.domain()
+        if dm is not None and dm[0] == 0 and not (isinstance(dm[1], tuple) and dm[1] and dm[1][0] in ("minlen", "len")):
+            return dm[1]
     sl = slice_of(x)
     if sl is not None:
         return _span(sl[1], sl[2])
